@@ -42,6 +42,9 @@ func writeTypeSpec(b *strings.Builder, in *Input, t *Type, indent string) {
 			switch {
 			case f.Embedded:
 				s := f.Name
+				if f.Foreign != "" {
+					s = f.Foreign
+				}
 				if f.Generic {
 					s += "[int]"
 				}
@@ -61,7 +64,27 @@ func writeTypeSpec(b *strings.Builder, in *Input, t *Type, indent string) {
 
 func source(in *Input) string {
 	var b strings.Builder
-	b.WriteString("// +gengo:runtimedoc\npackage p\n\n")
+	if in.NoPkgTag {
+		b.WriteString("// Package p is not tagged.\npackage p\n\n")
+	} else {
+		b.WriteString("// +gengo:runtimedoc\npackage p\n\n")
+	}
+	imports := map[string]bool{}
+	for i := range in.Types {
+		for _, f := range in.Types[i].Fields {
+			if f.Foreign != "" {
+				imports[strings.SplitN(f.Foreign, ".", 2)[0]] = true
+			}
+		}
+	}
+	for _, imp := range []string{"sync", "unicode"} {
+		if imports[imp] {
+			fmt.Fprintf(&b, "import %q\n\n", imp)
+		}
+	}
+	if in.Broken {
+		defer b.WriteString("\nfunc (\n")
+	}
 	if in.Grouped {
 		b.WriteString("type (\n")
 		for i := range in.Types {
@@ -96,7 +119,11 @@ func coqLines(ls []string) string {
 func coqField(f *Field) string {
 	kind := ""
 	if f.Embedded {
-		kind = fmt.Sprintf("(FEmbedded %s ELocal)", core.CoqBool(f.Ptr))
+		tg := "ELocal"
+		if f.Foreign != "" {
+			tg = "(EForeign " + core.CoqBool(f.Foreign == "sync.Mutex") + ")"
+		}
+		kind = fmt.Sprintf("(FEmbedded %s %s)", core.CoqBool(f.Ptr), tg)
 	} else {
 		c := "FOrdinary"
 		switch f.Class {
@@ -125,7 +152,7 @@ func coqPackage(in *Input) string {
 			kind = "(TStruct " + core.CoqList(fs) + ")"
 		}
 		ts = append(ts, fmt.Sprintf("(mk_ty %s %s %s %s %s)", core.Hex(t.Name), core.CoqBool(token.IsExported(t.Name)),
-			core.CoqBool(!t.Disabled), kind, coqLines(raw(t.Doc))))
+			core.CoqBool(in.enabled(t)), kind, coqLines(raw(t.Doc))))
 	}
 	return core.CoqList(ts)
 }
